@@ -313,3 +313,16 @@ def classify(facts, sites, table, validators=(), regex_ok=True):
         if ent is not None and counts[s.key] <= ent[0]:
             s.status, s.reason = "audited", ent[1]
     return sites
+
+
+def controls(ck, rule):
+    """positive / negative controls of the audit on the fixture crate: an unguarded unwrap, map index, str slice and
+    panic macro must come out `unaudited`; the guarded twins must be auto-discharged or have no site at all"""
+    import core
+    fx = core.fixture_facts()
+    for name, expect in (("pos_unwrap_unaudited", True), ("pos_index_unaudited", True), ("pos_slice_unaudited", True),
+                         ("pos_explicit_panic", True), ("neg_slice_after_starts_with", False), ("neg_no_panic", False)):
+        fn = core.fixture_fn(name)
+        sites = classify(fx, sites_of(fn), {})
+        armed = [s for s in sites if s.status == "unaudited" and not (s.kind == "assert" and s.what.startswith("overflow"))]
+        ck.control(rule, name, bool(armed), expect, note=", ".join(s.key for s in armed)[:160])
